@@ -196,7 +196,7 @@ Theorem sample_run_succeeds wo total w chunks :
   let W := N.of_nat (length (concat chunks)) / ch in
   1 <= W -> N.of_nat (length (concat chunks)) < 2 ^ 36 ->
   match total with Some T => T = ch * W | None => True end ->
-  exists f, sample_run (encB o L rate bps) md5 p w chunks = Ok f.
+  exists f, sample_run (encB o L rate bps) md5 p w chunks = Ok f /\ counters_fit (f_enc f).
 Proof.
   intros Hwf Hnew Hfits W HW1 Hlen36 Htotal.
   pose proof (sample_new_wf p [] wo rate bps ch total w Hwf Hnew) as Hsw.
@@ -262,7 +262,7 @@ Proof.
   assert (Hlast : exists e2, (if ch <=? len then if ch =? 0 then Panic PDivZero else
                     sample_encode_chunk (encB o L rate bps) p ch (bytes_per_sample_of bps) e1 (firstn (N.to_nat (len - len mod ch)) rest)
                   else Ok e1) = Ok e2 /\
-                  (exists K2, good e0 e2 K2) /\ true_samples e2 = W).
+                  (exists K2, good e0 e2 K2 /\ K2 <= 2 ^ 36) /\ true_samples e2 = W).
   { destruct (N.leb_spec ch len) as [Hle|Hgt].
     - destruct (N.eqb_spec ch 0); [lia|].
       set (whole := firstn (N.to_nat (len - len mod ch)) rest).
@@ -281,11 +281,11 @@ Proof.
         rewrite <- Nat2N.inj_div. reflexivity. }
       destruct (chunk_step_ok e0 e1 _ bs whole G1 ltac:(lia) ltac:(lia) Hwc) as (e2 & H2 & G2 & T2).
       { rewrite St, Et, T1, T0, Fcs_frames, Ewf. destruct total; cbv iota; [lia|exact I]. }
-      exists e2. split; [exact H2|]. split; [eauto|]. rewrite T2, T1, T0, Fcs_frames, Ewf. lia.
-    - exists e1. split; [reflexivity|]. split; [eauto|]. rewrite T1, T0, Fcs_frames.
+      exists e2. split; [exact H2|]. split; [exists (0 + N.of_nat (length cs) + 1); split; [exact G2|lia]|]. rewrite T2, T1, T0, Fcs_frames, Ewf. lia.
+    - exists e1. split; [reflexivity|]. split; [exists (0 + N.of_nat (length cs)); split; [exact G1|lia]|]. rewrite T1, T0, Fcs_frames.
       assert (dq = 0) by (unfold dq; apply N.div_small; lia). lia. }
-  destruct Hlast as (e2 & H2 & (K2 & G2) & T2). fold len. rewrite H2. cbn [bind].
-  destruct G2 as (I2 & S2 & Fn2 & Se2 & _).
+  destruct Hlast as (e2 & H2 & (K2 & G2 & HK2) & T2). fold len. rewrite H2. cbn [bind].
+  destruct G2 as (I2 & S2 & Fn2 & Se2 & _ & Hts2 & Htb2).
   pose proof (C15_finalize_contract md5 p e2 md5_length I2 S2 Fn2) as Hc.
   assert (Ew2 : e_samples_written e2 = W) by (destruct I2; congruence).
   assert (Et2 : si_total (e_si e2) = t) by (destruct Se2 as (_ & _ & _ & _ & _ & _ & _ & _ & _ & T); congruence).
@@ -297,7 +297,11 @@ Proof.
       { unfold MAX_SAMPLES. change (2 ^ 36) with 68719476736 in Hlen36. unfold W.
         assert (N.of_nat (length all) / ch <= N.of_nat (length all)) by (apply N.div_le_upper_bound; nia). lia. }
       destruct (N.leb_spec 1 W); [|lia]. destruct (N.ltb_spec W MAX_SAMPLES); [|lia]. exact Hc. }
-  destruct (encoder_finalize md5 p e2) as [f| |]; try discriminate. eauto.
+  destruct (encoder_finalize md5 p e2) as [f| |] eqn:Efin; try discriminate. exists f. split; [reflexivity|].
+  assert (Ef : f_enc f = e2).
+  { unfold encoder_finalize, encoder_finalize_gen in Efin. repeat (apply bind_ok in Efin; destruct Efin as (? & _ & Efin)). injection Efin as <-. reflexivity. }
+  rewrite Ef. unfold counters_fit, FB in *. change (2 ^ 36) with 68719476736 in HK2. change (2 ^ 22) with 4194304 in Htb2.
+  change (2 ^ 64) with 18446744073709551616. split; nia.
 Qed.
 
 End Success.
@@ -328,7 +332,7 @@ Proof.
     destruct (N.ltb_spec rate 1048576); [|discriminate]. destruct ((1 <=? ch) && (ch <=? 8)) eqn:Ec; [|discriminate].
     apply andb_prop in Ec. destruct Ec as [C1 C2]. apply N.leb_le in C1, C2. change (2 ^ 20) with 1048576. auto. }
   destruct Hr as (R & B1 & B2 & C1 & C2).
-  destruct (sample_run_succeeds o L md5 Hmd p rate bps ch R B1 B2 C1 C2 wo total w chunks Hwf Hnew Hfit HW Hlen Htot) as [f Hf].
+  destruct (sample_run_succeeds o L md5 Hmd p rate bps ch R B1 B2 C1 C2 wo total w chunks Hwf Hnew Hfit HW Hlen Htot) as [f [Hf _]].
   destruct (e2e_sample_pcm o L md5 Hmd p rate bps wo ch total w chunks f Hwf Hnew Hf Hfit Hlen) as (blocks & Hd & Hc & _).
   exists f, blocks. auto.
 Qed.
@@ -352,6 +356,6 @@ Proof.
   intros o L md5 Hmd p rate bps wo ch total w chunks Hwf Hnew Hfit W HW Hlen Htot.
   destruct (sample_writer_lossless o L md5 Hmd p rate bps wo ch total w chunks Hwf Hnew Hfit HW Hlen Htot) as (f & _ & Hrun & _ & _).
   destruct (e2e_sample_pcm o L md5 Hmd p rate bps wo ch total w chunks f Hwf Hnew Hrun Hfit Hlen)
-    as (blocks & _ & Hcat & _ & _ & _ & _ & _ & Hspec).
+    as (blocks & _ & Hcat & _ & _ & _ & _ & _ & Hspec & _).
   exists f, blocks. auto.
 Qed.
